@@ -1,7 +1,7 @@
 """C17 — readers: every reader kind over scripted upstreams, drained with random destination sizes."""
 PID = "C17"
 EXTRA_TARGETS = ("BS.Properties.C17c",)
-CASE_LIMIT = {"C17": 90}   # seconds: these cases are function calls, not sessions
+CASE_LIMIT = {"C17": 90, "C17red": 90}   # seconds: these cases are function calls, not sessions
 RULE = ("for each reader kind (map, filter, flatmap, head, fold (int64, int and string keys), writer, scan, const, readerfunc, multi, exec multi, frame, "
         "taskbuf, readfull, scanner, vector scanner, ReadAll, closing, cogroup): random inputs (0..40 rows, keys 0..9), random upstream scripts "
         "(chunk limits incl. zero-row reads, EOF with or after the last rows, injected read errors) and random destination-"
@@ -42,7 +42,33 @@ def gen_up(r, maxrows=40, script=True, fail=False):
     return s
 
 
-def gen(r, tier):
+SUBS = ["C17", "C17red"]
+
+
+def gen_reduce(r, tier):
+    """the reducing merge reader (sortio.Reduce, what a Reduce task reads through) over sorted inputs longer than its 128-row
+    buffers, most keys present in one input only, delivered in every chunking: judged like the C10 reduce cases"""
+    n = 60 if tier == "quick" else 1500
+    for i in range(n):
+        ns = r.rng(1, 3)
+        ups = []
+        for j in range(ns):
+            size = r.choice([129, 130, 200, 257, 300, 40])
+            ks = sorted(set(ns * k + j if r.chance(9, 10) else ns * k for k in range(size)))
+            rows = " ".join("%d:%d" % (k, (k * 7 + j) % 50) for k in ks)
+            sc = ""
+            if r.chance(2, 3):
+                steps = ["%d%s" % (r.choice([1, 2, 9, 100, 127, 128]), "e" if r.chance(1, 2) else "") for _ in range(r.rng(1, 6))]
+                sc = " SCRIPT " + " ".join(steps)
+            ups.append("IN " + rows + sc)
+        dest = "DEST " + " ".join(str(r.choice([1, 2, 7, 64, 128, 200])) for _ in range(r.rng(1, 3)))
+        yield " ; ".join(["reduce"] + ups + [dest])
+
+
+def gen(r, tier, sub):
+    if sub == "C17red":
+        yield from gen_reduce(r, tier)
+        return
     n = 4000 if tier == "quick" else 80000
     for i in range(n):
         kind = KINDS[i % len(KINDS)]
